@@ -187,6 +187,9 @@ pub struct TablePlan {
     /// channels and repetition counts) and by their exit status.
     #[serde(default)]
     pub ref_prefix: Option<(String, String)>,
+    /// pad the text with a leading comment to exactly this many bytes (lengths around buffer sizes)
+    #[serde(default)]
+    pub pad_total: Option<usize>,
     /// blow-up family: `[false &] ((a0 <=> b0) & .. & (a(n-1) <=> b(n-1)))` under an ordering file
     /// that lists all a's before all b's, so that one evaluation interns thousands of nodes
     /// (environment size is the simulated dimension; with the `false &` prefix the result is a
@@ -275,6 +278,28 @@ pub fn gen_ordering(rng: &mut Prng, text_names: &[String]) -> OrderingSpec {
         }
     }
     let mut kind = kind.to_string();
+    if rng.chance(1, 14) {
+        // a long ordering file: the number of distinct names straddles a power of two, the
+        // formula's own names sit right before / across / after the boundary
+        kind.push_str("+long");
+        let total = *rng.pick(&[63usize, 64, 65, 255, 256, 257, 1023, 1024, 1025, 1026, 4095, 4097]);
+        let have = toks.iter().filter(|t| t.is_name).count();
+        let fill = total.saturating_sub(have);
+        let split = match rng.below(3) {
+            0 => 0,
+            1 => fill,
+            _ => rng.below(fill + 1),
+        };
+        let mut all: Vec<OrdToken> = Vec::with_capacity(total + 8);
+        for i in 0..split {
+            all.push(OrdToken { text: format!("pad_{i}"), is_name: true });
+        }
+        all.append(&mut toks);
+        for i in split..fill {
+            all.push(OrdToken { text: format!("pad_{i}"), is_name: true });
+        }
+        toks = all;
+    }
     if rng.chance(1, 4) {
         kind.push_str("+junk");
         let junk = [",", ";", "12", "007", "and", "\"a comment with words x y\"", "(", ")", "=>", "#", "true", "not", "{ref}", "[", "]", "<=>", "~"];
@@ -351,7 +376,7 @@ pub fn gen_table_plan(rng: &mut Prng, property: &str, thorough: bool) -> TablePl
             } else if rng.coin() {
                 variants.push(Variant::Channel(gen_channel(rng)));
             } else {
-                variants.push(Variant::Repeat(if rng.chance(1, 10) { rng.range(5, 12) } else { rng.range(1, 4) }));
+                variants.push(Variant::Repeat(if rng.chance(1, 10) { *rng.pick(&[5usize, 8, 12, 16, 17, 32, 64, 65, 100, 128, 256, 257]) } else { rng.range(1, 4) }));
             }
         }
     }
@@ -381,11 +406,24 @@ pub fn gen_table_plan(rng: &mut Prng, property: &str, thorough: bool) -> TablePl
             next += *rng.pick(&[1usize, 1, 2, 3, 3, 1000, 1 << 33, 1 << 45]);
         }
         rng.shuffle(&mut ids);
+        if ids.len() >= 2 && rng.chance(1, 4) {
+            // `hash-collision`: one listed id is the one for which x_M collides with -x_j
+            let j = ids[0];
+            let m = crate::fx::id_colliding_with_negated(j as u64) as usize;
+            if !ids.contains(&m) {
+                ids[1] = m;
+            }
+        }
         Some(names.into_iter().zip(ids).collect())
     } else {
         None
     };
     let straddle = if !c11 && wide.is_none() && rng.chance(1, 6) { Some(8192 * rng.range(1, 2)) } else { None };
+    let pad_total = if !c11 && wide.is_none() && straddle.is_none() && rng.chance(1, 12) {
+        Some(*rng.pick(&[255usize, 256, 257, 1023, 1024, 1025, 4095, 4096, 4097, 8191, 8192, 8193, 16383, 16384, 16385, 32768, 65535, 65536]))
+    } else {
+        None
+    };
     fn fix_names(f: &F, out: &mut Vec<String>) {
         if let F::Fix(_, n, _) = f {
             out.push(n.clone());
@@ -426,6 +464,7 @@ pub fn gen_table_plan(rng: &mut Prng, property: &str, thorough: bool) -> TablePl
         straddle,
         ref_prefix,
         blowup,
+        pad_total,
     }
 }
 
@@ -628,6 +667,12 @@ fn model_of(p: &TablePlan) -> Result<Model, String> {
     let mut text = Printer::noisy(&mut prng, p.noise).print(f);
     if let Some((name, op)) = &p.ref_prefix {
         text = format!("{{{name}}} {op} ( {text} )");
+    }
+    if let Some(total) = p.pad_total {
+        if total >= text.len() + 3 {
+            let pad = total - text.len();
+            text = format!("\"{}\"\n{}", "y".repeat(pad - 3), text);
+        }
     }
     if let Some(at) = p.straddle {
         // leading comment of exactly the length that puts the first non-ASCII character's first
@@ -1287,6 +1332,17 @@ pub fn gen_robust_plan(rng: &mut Prng) -> RobustPlan {
     let spell = |rng: &mut Prng| -> String {
         rng.pick(&["any", "Any", "a", "A", "*", "true", "True", "t", "T", "1", "false", "False", "f", "F", "0", "maybe", "", "TRUE", "2"]).to_string()
     };
+    let huge_b = !blow && rng.chance(1, 14);
+    if huge_b {
+        // an absurd repetition count is only paired with a text that cannot parse: with a valid
+        // formula the unchanged tool would (rightly) start 2^59 evaluations and a time / memory limit
+        // would kill it, which says nothing about the property
+        formula = StoredInput {
+            base_kind: "invalid-with-huge-b".into(),
+            base: rng.pick(&["a &", "(((", "", "[a] =", "& a", "a b", "if a then b"]).as_bytes().to_vec(),
+            faults: vec![],
+        };
+    }
     let fs_fault = if rng.chance(1, 5) {
         Some(
             rng.pick(&[
@@ -1312,7 +1368,15 @@ pub fn gen_robust_plan(rng: &mut Prng) -> RobustPlan {
         v: rng.chance(1, 3),
         m: rng.chance(1, 4),
         r: rng.chance(1, 4),
-        b: if blow { Some(rng.range(2, 3)) } else if rng.chance(1, 6) { Some(rng.range(0, 3)) } else { None },
+        b: if blow {
+            Some(rng.range(2, 3))
+        } else if rng.chance(1, 6) {
+            Some(rng.range(0, 3))
+        } else if huge_b {
+            Some(*rng.pick(&[1usize << 31, 1 << 32, 1 << 59, 1 << 60, 1 << 63, usize::MAX, usize::MAX - 1, 1_000_000_000_000_000]))
+        } else {
+            None
+        },
         filter: if rng.coin() { Some(spell(rng)) } else { None },
         retain: if rng.chance(1, 3) { Some(spell(rng)) } else { None },
         dot: rng.chance(1, 3),
